@@ -2,8 +2,6 @@
 package c12
 
 import (
-	"context"
-	"errors"
 	"fmt"
 	"runtime"
 	"sort"
@@ -397,16 +395,10 @@ func run(c Case) hx.Verdict {
 			}
 		}
 	}
-	ncancel := 0
-	for _, g := range got {
-		if errors.Is(g, context.Canceled) {
-			ncancel++
-		}
-	}
+	// Kill is not an appended error: how many cancellation errors N kills leave is not fixed by the
+	// statement (one per call today; once per scope is as good). Only "a killed scope holds an
+	// error" is required, below.
 	parentKilled := c.ParentStop == "kill" || c.ParentPre > 0
-	if int64(ncancel) < kills {
-		return hx.Fail("error-lost", "%d Kill call(s) but only %d cancellation error(s) in Errors()", kills, ncancel)
-	}
 	wantErr := len(appended) > 0 || kills > 0
 	if (target.Err() != nil) != wantErr && !(parentKilled && target.Err() != nil) {
 		return hx.Fail("err-accessor", "Err()=%v but %d errors were appended and %d kills issued", target.Err(), len(appended), kills)
